@@ -1,0 +1,61 @@
+//go:build verif
+
+package consensus
+
+// Add-only accessors for the out-of-tree verification harness (/verif, family `reactornet`, properties
+// C04/C01: real reactor networks — ConsensusState + ConsensusManager on p2p switches with the real
+// TimeoutTicker).  Nothing here is compiled without the build tag `verif`; nothing changes the behaviour
+// of an existing function.
+
+import (
+	cfg "github.com/kardiachain/go-kardia/configs"
+	"github.com/kardiachain/go-kardia/lib/p2p"
+)
+
+// VerifUseRealTicker puts a fresh real TimeoutTicker (what NewConsensusState installs) back in place of a
+// scripted one installed with VerifSetTicker.  Call before Start.
+func (cs *ConsensusState) VerifUseRealTicker() {
+	cs.timeoutTicker = NewTimeoutTicker()
+	cs.timeoutTicker.SetLogger(cs.Logger)
+}
+
+// VerifConsensusConfig returns the node's consensus configuration (the harness sets the timeouts of a
+// network before Start).
+func (cs *ConsensusState) VerifConsensusConfig() *cfg.ConsensusConfig { return cs.config }
+
+// VerifRNQueueLens returns the lengths of the peer and the internal message queues (stall diagnosis).
+func (cs *ConsensusState) VerifRNQueueLens() (peer, internal int) {
+	return len(cs.peerMsgQueue), len(cs.internalMsgQueue)
+}
+
+// VerifStopWAL stops (flushes and closes) the consensus WAL the way the receive routine does on its way out.  For a
+// harness that ends the receive goroutine at the gate (= the process dies between two handler calls).
+func (cs *ConsensusState) VerifStopWAL() {
+	cs.wal.Stop()
+	cs.wal.Wait()
+}
+
+// VerifRNGossipVotes runs gossipVotesRoutine for one peer in the CALLER's goroutine (AddPeer starts it with `go`);
+// it returns when the peer or the reactor stops, a panic inside it is returned instead of killing the process.
+func (conR *ConsensusManager) VerifRNGossipVotes(peer p2p.Peer, ps *PeerState) (r interface{}) {
+	defer func() { r = recover() }()
+	conR.gossipVotesRoutine(peer, ps)
+	return nil
+}
+
+// VerifRNDrainPeerQueue empties the consensus state's peer message queue (for a harness that feeds the reactor's
+// Receive without running the receive routine) and returns the number of messages dropped.
+func (cs *ConsensusState) VerifRNDrainPeerQueue() int {
+	n := 0
+	for {
+		select {
+		case <-cs.peerMsgQueue:
+			n++
+		default:
+			return n
+		}
+	}
+}
+
+// VerifDecodeMsgRN is decodeMsg (wire bytes -> Message).
+func VerifDecodeMsgRN(bz []byte) (Message, error) { return decodeMsg(bz) }
